@@ -423,6 +423,10 @@ def check_generic(prop, tier, cfgs, n_quick, n_thorough, sigfun, stages, level="
                 mp.port = None
                 mp.qfeature = (e.get("quarantine") or ["?"])[0]
                 progs.append(mp)
+        if prop in ("C01", "C02"):
+            tp = Program(len(progs), gen_mini.occurrence_table(), root, "table:occurrence")
+            tp.port = None
+            progs.append(tp)
         progs = run_programs(progs, stages)
         evaluated, accepted, compiled = 0, 0, 0
         fps = set()
